@@ -36,6 +36,9 @@ MANIFEST = {
 
 
 def run(ctx):
+    from rules.common import require_fields
+    require_fields(ctx.program, 'dictutils.OneToOne', ['inv'])
+    require_fields(ctx.program, 'dictutils.ManyToMany', ['data', 'inv'])
     bimap.check_onetoone(ctx, 'dictutils.OneToOne')
     onepass.check(ctx, ctx.program.func('dictutils.OneToOne.update'), 'dict_or_iterable',
                   recv=ctx.program.cls('dictutils.OneToOne'))
